@@ -70,6 +70,13 @@ func (c *BindingManager) AddBinding(remoteDevice api.DeviceRemoteInterface, data
 	c.mux.Lock()
 	defer c.mux.Unlock()
 
+	// check again under the lock, a concurrent request may have been granted in the meantime
+	for _, item := range c.bindingEntries {
+		if reflect.DeepEqual(*item.ServerFeature.Address(), *serverFeature.Address()) {
+			return errors.New("the server feature already has a binding")
+		}
+	}
+
 	c.bindingEntries = append(c.bindingEntries, bindingEntry)
 	verifPoint("AddBinding.inserted", bindingEntry.Id)
 
